@@ -151,6 +151,8 @@ _THOROUGH = re.compile(r"^(?P<pre>.*?)(?P<num>\d+)(?P<post>[^\d\n]*)//\s*@thorou
 def apply_tier(text, tier):
     """Lines of the form `const N: usize = 4; // @thorough 6` or `#[kani::unwind(6)] // @thorough 8`
     get the last number before the comment replaced in the thorough tier."""
+    if os.environ.get("VERIF_BOUNDS"):
+        tier = os.environ["VERIF_BOUNDS"]
     if tier != "thorough":
         return text
 
